@@ -100,6 +100,7 @@ def isZwe (style : Text) : Bool := (findSub? zweMarker style).isSome
 /-- where a piece of the output stream comes from -/
 inductive Origin
   | gen      -- produced by an emitter of the output object (renderer's own repertoire)
+  | genw     -- "\r" / "\r\n"*k written by the renderer itself through `write`
   | content  -- text of a fragment / screen cell, through the escaping writer `write`
   | zwe      -- text explicitly marked `[ZeroWidthEscape]`, through `write_raw`
 deriving DecidableEq, Repr
